@@ -690,3 +690,102 @@ func genPyOnly(s *sink, quick bool) {
 		s.do(Case{Op: "builtin", Name: f, Args: []V{vNone()}, Class: "pyonly:" + f})
 	}
 }
+
+// genSort: sorted / min / max with many key ties -- duplicates, key=len,
+// key=x%3, key=0, mixed 1 / 1.0 / True -- with and without reverse, for every
+// list of length 0..4 over small pools (exhaustive) and random lists to length 8.
+func genSort(s *sink, quick bool) {
+	if quick {
+		s.coqEvery["sort"], s.pyEvery["sort"] = 9, 2
+	} else {
+		s.coqEvery["sort"], s.pyEvery["sort"] = 12, 2
+	}
+	type pool struct {
+		vals []V
+		keys []string
+	}
+	ints := []V{vInt(0), vInt(1), vInt(2), vInt(3), vInt(-1), vInt(4), vInt(7), vInt(1)}
+	strs := strV("", "a", "b", "B", "bb", "ab", "cc", "A", "d", "eee", "a")
+	pairs := []V{vTuple(vInt(1), vStr("a")), vTuple(vInt(2), vStr("b")), vTuple(vInt(1), vStr("c")), vTuple(vInt(2), vStr("d")), vTuple(vInt(0), vInt(5)), vTuple(vInt(1), vStr("a"))}
+	mixed := []V{vInt(1), vF(1.0), vBool(true), vInt(0), vF(0.0), vBool(false), vF(0.5), vInt(2), vF(2.0)}
+	nums := []V{vInt(1), vF(1.0), vInt(0), vF(0.0), vF(-0.5), vInt(2), vF(2.0), vInt(-1)}
+	bad := []V{vInt(1), vStr("a"), vNone(), vTuple(vInt(1))}
+	pools := []pool{
+		{ints, []string{"", "mod3", "zero", "neg", "ident", "int"}},
+		{strs, []string{"", "len", "zero", "lower", "first"}},
+		{pairs, []string{"", "first", "len", "zero"}},
+		{mixed, []string{"int", "zero"}},
+		{nums, []string{"", "int", "neg", "zero"}},
+		{bad, []string{"", "zero"}},
+	}
+	revs := []string{"", "true", "false"}
+	emit := func(l []V, key string) {
+		for _, kind := range []string{"list", "tuple"} {
+			x := V{T: kind, L: append([]V{}, l...)}
+			for _, rev := range revs {
+				s.do(Case{Op: "sort", Name: "sorted", Args: []V{x}, Key: key, Rev: rev, Class: "sort"})
+			}
+			for _, f := range []string{"min", "max"} {
+				s.do(Case{Op: "sort", Name: f, Args: []V{x}, Key: key, Class: "sort"})
+				if len(l) >= 2 && kind == "list" {
+					s.do(Case{Op: "sort", Name: f, Args: append([]V{}, l...), Key: key, Class: "sort"})
+				}
+			}
+			if quick {
+				break
+			}
+		}
+	}
+	maxLen := 4
+	if quick {
+		maxLen = 3
+	}
+	for _, p := range pools {
+		base := p.vals
+		if len(base) > 5 {
+			base = base[:5]
+		}
+		// exhaustive short lists over the first elements of the pool
+		var rec func(prefix []V, n int)
+		rec = func(prefix []V, n int) {
+			if len(prefix) == n {
+				for _, k := range p.keys {
+					emit(prefix, k)
+				}
+				return
+			}
+			for _, v := range base {
+				rec(append(append([]V{}, prefix...), v), n)
+			}
+		}
+		for n := 0; n <= maxLen; n++ {
+			if n == maxLen && len(p.keys) > 4 && quick {
+				continue
+			}
+			rec(nil, n)
+		}
+		// random lists of length 3..8 with duplicates
+		cnt := 300
+		if quick {
+			cnt = 60
+		}
+		for i := 0; i < cnt; i++ {
+			n := 3 + s.r.Intn(6)
+			l := make([]V, n)
+			for j := range l {
+				l[j] = p.vals[s.r.Intn(len(p.vals))]
+			}
+			emit(l, p.keys[s.r.Intn(len(p.keys))])
+		}
+	}
+	// argument handling
+	x := intList(2, 1)
+	for _, a := range [][]V{{}, {x, x}, {vInt(1)}, {vNone()}, {vStr("ba")}} {
+		for _, f := range []string{"sorted", "min", "max"} {
+			s.do(Case{Op: "sort", Name: f, Args: a, Class: "sort"})
+		}
+	}
+	s.do(Case{Op: "sort", Name: "min", Args: []V{x}, Rev: "true", Class: "sort"})
+	s.do(Case{Op: "sort", Name: "sorted", Args: []V{vRange(5, 0, -1)}, Rev: "true", Key: "mod3", Class: "sort"})
+	s.do(Case{Op: "sort", Name: "max", Args: []V{vRange(0, 7, 1)}, Key: "mod3", Class: "sort"})
+}
